@@ -303,5 +303,30 @@ def run(ck, tier):
                 pad = "b'\\x00' * (len(self.to_string()) % 2)" in src or "% 2" in src
                 okb = w == 2 and pad
     ck.ob('R3', bd.qn, 'build() pads odd lengths with one zero byte and cuts 2-byte chunks from offset 0', okb, detail='build-shape', loc=cx.floc(bd))
+    # the image is a function of what has been added, nothing else: to_string() joins the current payload on every path
+    # and reset() empties it (a cached or stale image survives a reset / refill of the same builder)
+    ts = cx.method(b, 'to_string')
+    ck.saw('functions', ts.qn)
+    nret = 0
+    for p in cx.enum(ts, b, max_depth=1):
+        if p.exit and p.exit[0] == 'exc':
+            continue
+        annotate(p, heap=True)
+        r = ret_expr(p)
+        nret += 1
+        txt = U(r).replace(' ', '') if r is not None else None
+        okj = txt in ("b''.join(self._payload)", "bytes().join(self._payload)", "b''.join(list(self._payload))",
+                      "b''.join([xforxinself._payload])", "b''.join(xforxinself._payload)")
+        ck.ob('R3', ts.qn, 'to_string() returns the join of the current payload on every path', okj, detail='to-string-not-join %s' % (txt or '')[:50],
+              loc=cx.floc(ts), message='BinaryPayloadBuilder.to_string can return `%s` instead of the join of the chunks added so far: '
+                                       'a builder that is reset and refilled hands out a stale image' % (U(r) if r is not None else None))
+    ck.floor('R3', nret, 1, 'to_string return paths')
+    rs = cx.method(b, 'reset')
+    okr = False
+    for p in cx.enum(rs, b, max_depth=1):
+        st = annotate(p, heap=True)
+        v = st.heap.get('self._payload')
+        okr = v is not None and U(v) in ('[]', 'list()')
+    ck.ob('R3', rs.qn, 'reset() empties the payload', okr, detail='reset-keeps-payload', loc=cx.floc(rs))
     ck.assume('value-level round trips (signs, NaN, subnormals) rest on struct, which is trusted')
     return cx.idx
